@@ -370,6 +370,10 @@ def c18_cases(rng, n, thorough):
              "_single": "--single-stream" in args}
         if toolname != "xz":
             c["args"] = ["in." + fmt]
+        elif mode == "dc" and rng.random() < 0.2:
+            # standard input to standard output, with or without -c (xz writes to stdout either way)
+            c["args"] = [rng.choice(["-d", "-dc"])] + [a for a in args if a.startswith(("-T", "--no-sparse", "--single"))]
+            c[rng.choice(["stdin_file", "stdin_pipe_from"])] = "in." + fmt
         # benign I/O perturbation: short reads and writes at random calls
         faults = []
         for _ in range(rng.choice([0, 0, 1, 3, 6])):
